@@ -2130,128 +2130,137 @@ impl<'store> FindTextSelectionsIter<'store> {
     /// The reference text selection is always in the subject position for the associated [`TextSelectionOperator`] (`operator()`)
     /// The boolean returns the direction of iteration (true = forward, false = backwards)
     fn init_textseliters(&mut self) {
+        if self.refset.is_empty() {
+            return;
+        }
+        let textlen = self.resource.textlen();
+        let refbegin = self.refset.begin().unwrap();
+        let refend = self.refset.end().unwrap();
+        //Note: all ranges below are supersets of the positions where a match can begin (forward
+        //iteration) or end (backward iteration), the upper bound is always inclusive (hence the +1),
+        //zero-width selections and selections touching the very end of the text included. The
+        //relation test decides, these ranges only narrow down the candidates. A single iterator per
+        //operator is used so no text selection can be returned twice.
+        let negated = match self.operator {
+            TextSelectionOperator::Equals { negate, .. }
+            | TextSelectionOperator::Overlaps { negate, .. }
+            | TextSelectionOperator::Embeds { negate, .. }
+            | TextSelectionOperator::Embedded { negate, .. }
+            | TextSelectionOperator::Before { negate, .. }
+            | TextSelectionOperator::After { negate, .. }
+            | TextSelectionOperator::Precedes { negate, .. }
+            | TextSelectionOperator::Succeeds { negate, .. }
+            | TextSelectionOperator::SameBegin { negate, .. }
+            | TextSelectionOperator::SameEnd { negate, .. }
+            | TextSelectionOperator::InSet { negate, .. }
+            | TextSelectionOperator::SameRange { negate, .. } => negate,
+        };
+        if negated {
+            //the complement of a relation can be anywhere
+            self.textseliters.push((self.resource.iter(), true));
+            return;
+        }
         match self.operator {
             TextSelectionOperator::Embeds { .. } => {
-                for reftextselection in self.refset.iter() {
-                    self.textseliters.push((
-                        self.resource
-                            .range(reftextselection.begin(), reftextselection.end()),
-                        true,
-                    ));
-                }
+                //matches begin inside (or at the boundaries of) the reference
+                self.textseliters
+                    .push((self.resource.range(refbegin, refend + 1), true));
             }
             TextSelectionOperator::SameBegin { .. } => {
-                self.textseliters.push((
-                    self.resource.range(
-                        self.refset.begin().unwrap(),
-                        self.refset.begin().unwrap() + 1,
-                    ),
-                    true,
-                ));
+                //matches begin where a reference text selection begins
+                self.textseliters
+                    .push((self.resource.range(refbegin, refend + 1), true));
             }
             TextSelectionOperator::SameEnd { .. } => {
+                //matches end where a reference text selection ends
                 self.textseliters.push((
-                    self.resource
-                        .range(self.refset.end().unwrap(), self.refset.end().unwrap() + 1),
+                    self.resource.range(refbegin, refend + 1),
                     false, //search backwards! end must be in range above
                 ));
             }
             TextSelectionOperator::After { limit, .. } => {
-                //self comes after found items, so find items before self:
+                //self comes after found items, so find items that end before (or where) self begins
                 let begin = if let Some(limit) = limit {
-                    if limit >= self.refset.begin().unwrap() {
-                        0
-                    } else {
-                        self.refset.begin().unwrap() - limit
-                    }
+                    refbegin.saturating_sub(limit)
                 } else {
                     0
                 };
                 self.textseliters.push((
-                    self.resource.range(begin, self.refset.begin().unwrap()),
-                    true,
+                    self.resource.range(begin, refend + 1),
+                    false, //search backwards! end must be in range above
                 ));
             }
             TextSelectionOperator::Succeeds {
                 allow_whitespace, ..
             } => {
+                //found items end where self begins (possibly with some whitespace in between)
+                let begin = if allow_whitespace {
+                    refbegin.saturating_sub(WHITESPACE_LIMIT + 1)
+                } else {
+                    refbegin
+                };
                 self.textseliters.push((
-                    self.resource.range(
-                        self.refset.begin().unwrap(),
-                        self.refset.begin().unwrap()
-                            + if allow_whitespace {
-                                WHITESPACE_LIMIT + 1
-                            } else {
-                                1
-                            },
-                    ),
+                    self.resource.range(begin, refend + 1),
                     false, //search backwards!! end must be in range above
                 ));
             }
             TextSelectionOperator::Before { limit, .. } => {
-                //self comes before found items, so find items after self:
+                //self comes before found items, so find items that begin after (or where) self ends
                 let end = if let Some(limit) = limit {
-                    self.refset.end().unwrap() + limit
+                    std::cmp::min(refend + limit, textlen)
                 } else {
-                    self.resource.textlen()
+                    textlen
                 };
                 self.textseliters
-                    .push((self.resource.range(self.refset.end().unwrap(), end), true));
+                    .push((self.resource.range(refbegin, end + 1), true));
             }
             TextSelectionOperator::Precedes {
                 allow_whitespace, ..
             } => {
-                self.textseliters.push((
-                    self.resource.range(
-                        self.refset.end().unwrap(),
-                        self.refset.end().unwrap()
-                            + if allow_whitespace {
-                                WHITESPACE_LIMIT + 1
-                            } else {
-                                1
-                            },
-                    ),
-                    true,
-                ));
+                //found items begin where self ends (possibly with some whitespace in between)
+                let end = if allow_whitespace {
+                    std::cmp::min(refend + WHITESPACE_LIMIT + 1, textlen)
+                } else {
+                    refend
+                };
+                self.textseliters
+                    .push((self.resource.range(refbegin, end + 1), true));
             }
-            TextSelectionOperator::Embedded {
-                limit: Some(limit), ..
-            } => {
-                let halfway = self.resource.textlen() / 2;
-                for reftextselection in self.refset.iter() {
-                    if reftextselection.begin() <= halfway {
-                        let begin = if reftextselection.begin() > limit {
-                            reftextselection.begin() - limit
-                        } else {
-                            0
-                        };
-                        self.textseliters
-                            .push((self.resource.range(begin, reftextselection.end()), true));
+            TextSelectionOperator::Embedded { limit, .. } => {
+                //found items begin at or before self and end at or after self
+                let halfway = textlen / 2;
+                if refbegin <= halfway {
+                    let begin = if let Some(limit) = limit {
+                        refbegin.saturating_sub(limit)
                     } else {
-                        let mut end = reftextselection.end() + limit;
-                        if end > self.resource.textlen() {
-                            end = self.resource.textlen();
-                        }
-                        self.textseliters.push((
-                            self.resource.range(reftextselection.end(), end),
-                            false, //search backwards!!
-                        ));
-                    }
+                        0
+                    };
+                    self.textseliters
+                        .push((self.resource.range(begin, refend + 1), true));
+                } else {
+                    let end = if let Some(limit) = limit {
+                        std::cmp::min(refend + limit, textlen)
+                    } else {
+                        textlen
+                    };
+                    self.textseliters.push((
+                        self.resource.range(refbegin, end + 1),
+                        false, //search backwards!!
+                    ));
                 }
             }
-            TextSelectionOperator::Overlaps { .. } | TextSelectionOperator::Embedded { .. } => {
-                let halfway = self.resource.textlen() / 2;
-                for reftextselection in self.refset.iter() {
-                    if reftextselection.begin() <= halfway {
-                        self.textseliters
-                            .push((self.resource.range(0, reftextselection.end()), true));
-                    } else {
-                        self.textseliters.push((
-                            self.resource
-                                .range(reftextselection.end(), self.resource.textlen()),
-                            false, //search backwards!!
-                        ));
-                    }
+            TextSelectionOperator::Overlaps { .. } => {
+                let halfway = textlen / 2;
+                if refbegin <= halfway {
+                    //found items begin before self ends
+                    self.textseliters
+                        .push((self.resource.range(0, refend + 1), true));
+                } else {
+                    //found items end after self begins
+                    self.textseliters.push((
+                        self.resource.range(refbegin, textlen + 1),
+                        false, //search backwards!!
+                    ));
                 }
             }
             _ => {
